@@ -70,8 +70,7 @@ Section Id.
       + destruct (ids_of (p_prev p)) as [l|]; [rewrite dec_all_plain|]; reflexivity.
       + destruct (ids_of (p_auth p)) as [l|]; [rewrite dec_all_plain|]; reflexivity.
     - intro Hc. destruct (shape_facts ver (b_known _ _ _ _ _ _ _ B)) as (_ & _ & _ & _ & Hc2 & _).
-      destruct (Hc2 Hc) as [Hf _]. rewrite (b_idraw _ _ _ _ _ _ _ B). unfold dec_str.
-      rewrite G by (intro E; discriminate E). rewrite L11, Hf. reflexivity.
+      rewrite (b_idraw _ _ _ _ _ _ _ B). unfold json_event_id. apply N.eqb_neq in Hc. rewrite Hc. reflexivity.
   Qed.
 
   Lemma built_reference_pre ver p eid ts origin e :
